@@ -104,8 +104,19 @@ def flatten_param_fresh(cls, m, k, prm):
         return flatten_param(prm)
 
 
-def generate(_):
-    """child: run the real generator; read the committed artefacts."""
+def generate(after_runs):
+    """child: run the real generator; read the committed artefacts. With after_runs, the same interpreter has served simulations before (a
+    many-non-defaults GEOPHIRES request and a HIP-RA-X request): the published schema must not depend on what the process did earlier."""
+    if after_runs:
+        from vf.core import sim
+        from vf.checks import c08
+        sim.simulate(c08.req_lines('okOdd'), None, want=())
+        try:
+            from hip_ra_x import HipRaXClient
+            from hip_ra import HipRaInputParameters
+            HipRaXClient().get_hip_ra_result(HipRaInputParameters(str(sim.write_input(c08.req_lines('hip'), name='hip-before-schema.txt'))))
+        except Exception:  # noqa
+            pass
     from geophires_x_schema_generator import GeophiresXSchemaGenerator, HipRaXSchemaGenerator
     g = GeophiresXSchemaGenerator()
     req, resu = g.generate_json_schema()
@@ -404,7 +415,7 @@ def run(tier, seed, budget=None):
         col.capped = True
     res = check.new_result()
     # --- generated schema, committed files
-    tag = runner.fork_exec(generate, None, timeout=600)
+    tag = runner.fork_exec(generate, False, timeout=600)
     res['execs'] += 1
     if tag[0] != 'ok':
         res['infra'].append(f'schema generation failed: {tag[1]} {tag[2] if len(tag) > 2 else ""}')
@@ -418,6 +429,18 @@ def run(tier, seed, budget=None):
             only_c = sorted(set(cp) - set(gp))[:5]
             diff = [k for k in gp if k in cp and gp[k] != cp[k]][:5]
             check.fail(res, f'committed_differs/{fn}', f'committed {fn} differs from the generated schema (only generated: {only_g}; only committed: {only_c}; different: {diff})')
+    # the same generation in an interpreter that has already simulated
+    tag2 = runner.fork_exec(generate, True, timeout=900)
+    res['execs'] += 1
+    if tag2[0] != 'ok':
+        res['infra'].append(f'schema generation after simulations failed: {tag2[1]} {tag2[2] if len(tag2) > 2 else ""}')
+    else:
+        for fn in gen:
+            if tag2[1]['generated'][fn] != gen[fn]:
+                gp, cp = tag2[1]['generated'][fn].get('properties', {}), gen[fn].get('properties', {})
+                diff = [k for k in gp if gp.get(k) != cp.get(k)][:5] + [k for k in cp if k not in gp][:3]
+                check.fail(res, f'generated_depends_on_history/{fn}', f'{fn} generated after simulations in the same interpreter differs from the one generated in a fresh interpreter: {diff}; '
+                           f'e.g. {json.dumps(gp.get(diff[0]) if diff else None)[:160]} vs {json.dumps(cp.get(diff[0]) if diff else None)[:160]}')
     props = gen['geophires-request.json']['properties']
     real_names = {n for n in accepted if not any(t[0] in ('CONSTRUCTION-FAILED',) for t in accepted[n])}
     for n in sorted(real_names - set(props)):
